@@ -1476,6 +1476,9 @@ def gen_C13(r, n):
         if r.below(3) == 0:
             e = math.frexp(a[0])[1] + r.rng(-60, 60)
             b = log_uniform_tf(r, max(-400, min(399, e)), max(-399, min(400, e + 1)))
+        if r.below(4) == 0:
+            l2 = r.choice([0.0, -a[1], fp.rn(fp.ulp(a[0]) / 2 ** r.rng(2, 50)) * r.choice([1, -1])])
+            b = (a[0] * r.choice([1, -1]), l2) if fp.is_valid(a[0], l2) else b        # equal high words, different low words
         c.add('TwoFloat.hypot %s %s' % (w2(a), w2(b)), kind='hypot', x=a, y=b)
         # powi: n log-uniform in |n|
         k = r.below(8)
@@ -1588,6 +1591,14 @@ def gen_C14(r, n, thorough=False):
         if -900 <= q2 <= 1000:
             add('exp2', tf_of_fr(q2))
         add('exp2', (float(r.rng(-1022, 1022)), 0.0), exact=True)
+        hh_ = r.rng(-900, 999) + 0.5
+        ll_ = fp.rn(fp.ulp(hh_) / 2 ** r.rng(1, 60)) * r.choice([1, -1])
+        if fp.is_valid(hh_, ll_):
+            add('exp2', (hh_, ll_))             # reduction boundary: round(hi) and round(hi + lo) can differ
+        ii_ = float(r.rng(-900, 999))
+        ll_ = fp.rn(fp.ulp(ii_ if ii_ else 1.0) / 2 ** r.rng(1, 60)) * r.choice([1, -1])
+        if fp.is_valid(ii_, ll_):
+            add('exp2', (ii_, ll_))
         # exp_m1
         kk = r.below(6)
         if kk == 0:
@@ -1916,6 +1927,9 @@ def gen_C17(r, n):
         if r.below(2):
             # barely outside: |x| = 1 + 2^-j for j up to 300 (the excess lives entirely in the low word)
             out_ = tf_of_fr((1 + Fr(r.rng(2**20, 2**21), 2 ** (20 + r.rng(1, 300)))) * r.choice([1, -1]))
+            if r.below(3) == 0:
+                sg_ = r.choice([1, -1])
+                out_ = (1.0 * sg_, fp.fbits(r.choice([1, 1, 2, 3, r.rng(1, 2**20)])) * sg_)      # |x| = 1 + a few units of 2^-1074
         c.add('TwoFloat.asin %s' % w2(out_), kind='dom', x=out_)
         c.add('TwoFloat.acos %s' % w2(out_), kind='dom', x=out_)
     Z = [(0.0, 0.0), (-0.0, 0.0)]
